@@ -249,7 +249,8 @@ def kept_indices(spec, k, R):
 def gen_case(rng, cap):
     kind = rng.choice(["cubic", "cubic", "hex", "hex", "tric", "mono", "ortho", "rhomb"])
     for _ in range(200):
-        spec = gen_structure(rng, natoms=rng.choice([1, 1, 2, 3, 4, 5, 6]), kind=kind, in_cell=True)
+        # a quarter of the templates list some atoms outside [0,1)^3 (legal; the completeness clause does not apply then)
+        spec = gen_structure(rng, natoms=rng.choice([1, 1, 2, 3, 4, 5, 6]), kind=kind, in_cell=rng.random() >= 0.25)
         if rng.random() < 0.6:
             spec["lattice"]["baserot"] = [[1.0, 0.0, 0.0], [0.0, 1.0, 0.0], [0.0, 0.0, 1.0]]
         cell = spec["lattice"]["abcABG"]
@@ -278,6 +279,7 @@ def sparse_cases(rng, n):
         for i, x in enumerate(pos):
             at = gen_atom(rng, i, in_cell=True)
             at["xyz"] = list(x)
+            at.pop("xyz_dtype", None)
             sp["atoms"].append(at)
         return sp
 
@@ -323,6 +325,7 @@ def edited_spec(rng, spec):
         at["vid"] = idx
         if rng.random() < 0.8:
             at["xyz"] = [rng.random() for _ in range(3)]
+            at.pop("xyz_dtype", None)          # generic coordinates: stored as a float array again
         at["element"] = rng.choice([e for e in ("C", "O", "Ni", "Cd", "Se", "Na", "Cl", "Ti") if e != at["element"]])
         at["occupancy"] = round(rng.uniform(0.05, 0.95), 3)
         if "U" in at:
@@ -341,7 +344,10 @@ def apply_inplace(S, spec1, swap):
         list.__setitem__(S, i, b)
         list.__setitem__(S, j, a)
     for a, at in zip(S, spec1["atoms"]):
-        a.xyz[:] = at["xyz"]
+        if at.get("xyz_dtype") or a.xyz.dtype != float:
+            a.xyz = numpy.array(at["xyz"], dtype={"int": int, "float32": numpy.float32}.get(at.get("xyz_dtype"), float))
+        else:
+            a.xyz[:] = at["xyz"]
         a.element = at["element"]
         a.occupancy = at["occupancy"]
         a.label = at["label"]
@@ -450,6 +456,7 @@ def run(ck):
     from diffpy.structure.expansion.shapeutils import findCenter
 
     ok, info = ck.lean_obligations("DS.Props.C18")
+    tie_ok, tie_info = ck.source_tie("DS.Props.SrcLattice")  # the block is a supercell: same Lattice model as C15
     rng = ck.rng
     quick = ck.tier == "quick"
     cap = 4 if quick else 6
@@ -615,6 +622,7 @@ def run(ck):
         "fresh allocation of the result is the heap model of C15 (supercellH); the oracle checks object identities on CPython",
     ]
     ck.coverage["trusted_base"] += ["harness/c18.py oracle (plain numpy enumeration of lattice sites)", "compiled Lean model driver (DS.Expand.expandHandle)"]
+    ck.tie_verdict(tie_ok, tie_info, "lattice.py")
     if not ok and not ck.violations:
         ck.fail("lean-build", "Lean obligations of C18 no longer check: %r" % (info["failed_modules"],),
                 {"kind": "proof-obligation", "theorem": info["failed_modules"], "errors": info["errors"]}, no_failing_input=True)
